@@ -52,6 +52,10 @@ def specs_for(progs, sem, tier, rng):
             if p["name"] in ("vf_basic", "vf_split"):
                 specs.append(psrun.make_spec(p, s, {"kind": "random", "seed": rng.randrange(1 << 30), "penv": 0.6},
                                              name="%s#%stmplink" % (p["name"], mode), vdr=mode, files=True, tmp_link=True))
+            # jobs that leave nothing but zero-length files in their temporary directories
+            if p["name"] in ("vf_basic", "vf_split", "vf_strict_bare", "vf_sub"):
+                specs.append(psrun.make_spec(p, s, {"kind": "random", "seed": rng.randrange(1 << 30), "penv": 0.6},
+                                             name="%s#%semptytmp" % (p["name"], mode), vdr=mode, files=True, bare=True, empty_tmp=True))
             if p["name"] == "vf_strict_bare":
                 for k in range(2):
                     specs.append(psrun.make_spec(p, s, {"kind": "random", "seed": rng.randrange(1 << 30), "penv": rng.choice([0.3, 0.8])},
@@ -63,6 +67,13 @@ def specs_for(progs, sem, tier, rng):
                 specs.append(psrun.make_spec(p, s, {"kind": "random", "seed": rng.randrange(1 << 30), "penv": rng.choice([0.4, 0.8])},
                                              name="%s#%sr%d" % (p["name"], mode, k), vdr=mode, files=True,
                                              faults={rng.choice(jobs): "errors"}, restart=True, vdr_jitter=500))
+            # ... the join of a splitting stage fails when its chunks are done and their temporary
+            # directories cleaned; after the restart the chunks are complete, the join runs again
+            joins = [j["key"] for j in psprops.expected_jobs(s) if j["kind"] == "join" and j["split"] and not j["ghost"]]
+            if joins:
+                specs.append(psrun.make_spec(p, s, {"kind": "random", "seed": rng.randrange(1 << 30), "penv": 0.6},
+                                             name="%s#%srj" % (p["name"], mode), vdr=mode, files=True,
+                                             faults={rng.choice(joins): "errors"}, restart=True, vdr_jitter=200))
             # ... the outputs of a stage that does not split fail validation (a missing key): the
             # job itself has completed, its outputs are rejected; after the restart it runs again
             nosplit = [j["key"] for j in psprops.expected_jobs(s) if j["kind"] == "main" and not j["split"] and not j["ghost"]]
